@@ -7,9 +7,10 @@
    atomic actions, every handler behaviour, every drain size and I/O outcome.  The Go scheduler
    and memory model, the kernel's sendmmsg/recvmmsg, Go memory aliasing and the DoH/DoQ library
    internals are outside (props/C10/NOTES.md). *)
+From Coq Require Import String.
 From Sdns Require Import Common.Base Gen.C10 C10.Model C10.ModelStream C10.ModelShare C10.ModelPool
   C10.Proofs_UdpBase C10.Proofs_UdpInv C10.Proofs_UdpThm C10.Proofs_Stream C10.Proofs_Read C10.Proofs_Share C10.Proofs_Top
-  C10.Proofs_Pool C10.ModelChains C10.Proofs_Chains C10.Proofs_Read C10.Proofs_ConnFrames.
+  C10.Proofs_Pool C10.ModelChains C10.Proofs_Chains C10.Proofs_Read C10.Proofs_ConnFrames C10.ModelEdns C10.Proofs_Edns.
 Open Scope nat_scope.
 
 (* ties: the constants the proofs compute with are the source's *)
@@ -176,6 +177,67 @@ Theorem slab_sweep_covers_every_shard : forall shard k, (k < slab_shard_count)%N
   exists i, (i < slab_shard_count)%N /\ N.land (shard + i) (slab_shard_count - 1) = k.
 Proof. exact shard_sweep_covers. Qed.
 Print Assumptions slab_sweep_covers_every_shard.
+
+(* edns_writer_rebinding: the edns wrapper stored in a job slab serves every client ever served from
+   that slab.  For EVERY history of requests through one slot (any clients, OPT shapes, paths):
+   the wrapper the handlers see for a request is the one a brand-new wrapper would show for it,
+   what the reply's OPT shows of the client (OPT at all, DO, the client half of COOKIE, NSID,
+   keepalive) is a function of THAT request alone (own_facts), and the slot is left zero.  eslot
+   carries every per-request field of edns.ResponseWriter (edns_writer_ties). *)
+Theorem edns_writer_rebinding : forall l,
+  (fst (e_run e_release eslot_zero l) =
+   map (fun qp => (e_bind eslot_zero (fst qp), snd (e_reply (e_bind eslot_zero (fst qp)) (snd qp)))) l /\
+   snd (e_run e_release eslot_zero l) = eslot_zero) /\
+  (forall i q p s1 o, nth_error l i = Some (q, p) ->
+     nth_error (fst (e_run e_release eslot_zero l)) i = Some (s1, Some o) ->
+     s1 = e_bind eslot_zero q /\ o = own_facts q).
+Proof. intros l. split; [exact (edns_rebinding_lemma l)|exact (edns_own_facts_lemma l)]. Qed.
+Print Assumptions edns_writer_rebinding.
+
+(* ... and the whole-wrapper wipe at exit is necessary: with an exit that only drops the references
+   (the entry binds the cookie only when the request has one) client 2 is answered with client
+   1's cookie bytes (computed witness) *)
+Theorem edns_release_keeping_facts_would_leak :
+  let c1 := [193; 12; 0; 75; 30; 165; 0; 91]%N in
+  let q1 := mkEreq true false c1 false false false false false 1232 in
+  let q2 := mkEreq true false [] false false false false false 1232 in
+  map snd (fst (e_run e_release_keeps eslot_zero [(q1, PWire); (q2, PWire)]))
+  = [Some (mkEobs true false c1 false false); Some (mkEobs true false c1 false false)]
+  /\ own_facts q2 = mkEobs true false [] false false.
+Proof. exact keeping_facts_leaks. Qed.
+Print Assumptions edns_release_keeping_facts_would_leak.
+
+(* the source: ResponseWriter's per-request fields are exactly eslot's (a new field breaks this);
+   serveWire's entry assigns are e_bind's; its deferred exit wipes the whole wrapper; the sizes;
+   and the translated methods responseWriter.Written / tcpStream.framePrefixBuffered
+   read as the models use them *)
+Theorem edns_writer_ties :
+  edns_writer_fields = map sbytes eslot_fields /\
+  edns_entry_assigns = map sbytes ["pooled"; "ResponseWriter"; "EDNS"; "size"; "do"; "noedns"; "nsid"; "keepalive";
+                                   "respUDPSize"; "hasCookieRaw"; "noad"]%string /\
+  edns_exit_block = [exit_block_text] /\
+  (edns_min_msg_size = 512%N /\ edns_default_msg_size = 1232%N /\ edns_max_msg_size = 65535%N).
+Proof. exact (conj edns_fields_tie (conj edns_entry_tie (conj edns_exit_tie edns_sizes))). Qed.
+Print Assumptions edns_writer_ties.
+
+Theorem translated_methods :
+  (forall w, go_responseWriter_Written w = negb (T_responseWriter_size w =? writer_unwritten_size)%Z) /\
+  (forall s, go_tcpStream_framePrefixBuffered s = (Z.of_N frame_prefix_len <=? T_tcpStream_end s - T_tcpStream_start s)%Z).
+Proof. exact (conj gen_responseWriter_Written gen_framePrefixBuffered). Qed.
+Print Assumptions translated_methods.
+
+(* the base writer (middleware.responseWriter) across requests: Reset assigns EVERY field the struct
+   has (both lists read from the source: a new field that Reset does not assign breaks this), and
+   the state it leaves does not depend on the previous request in any field (wf_reset) — this
+   extends writer_rebinding / writer_first_reply_after_reset from {transport, size} to msg, wire,
+   rcode, proto, remoteip, internal, directPack *)
+Theorem writer_reset_covers_every_field :
+  (forallb (fun f => existsb (str_eqb f) base_writer_reset_assigns) base_writer_fields = true /\
+   base_writer_fields = map sbytes ["msg"; "wire"; "size"; "rcode"; "proto"; "remoteip"; "internal"; "directPack"]%string /\
+   existsb (str_eqb (sbytes "Transport")) base_writer_reset_assigns = true) /\
+  (forall w w' t tcp ip, wf_reset w t tcp ip = wf_reset w' t tcp ip).
+Proof. exact (conj base_writer_reset_covers writer_reset_forgets). Qed.
+Print Assumptions writer_reset_covers_every_field.
 
 (* pooled_stream_forgets: the framing stream is pooled across connections.  Whatever the previous
    connection left in it — replies still staged after a failed write, a sticky write error —
